@@ -442,6 +442,14 @@ func samplerPreset(i int64) (any, string) {
 			{Name: "two", SampleRate: 2, Conditions: []*config.RulesBasedSamplerCondition{{Field: "f1", Operator: config.EQ, Value: "y"}}},
 			{Name: "keepall", SampleRate: 1},
 		}}, "RulesBasedSampler"
+	case 12:
+		// (not among the presets drawn at random) every rule keeps, each under its own name
+		return &config.RulesBasedSamplerConfig{Rules: []*config.RulesBasedSamplerRule{
+			{Name: "rule x", SampleRate: 1, Conditions: []*config.RulesBasedSamplerCondition{{Field: "f1", Operator: config.EQ, Value: "x"}}},
+			{Name: "rule y", SampleRate: 1, Conditions: []*config.RulesBasedSamplerCondition{{Field: "f1", Operator: config.EQ, Value: "y"}}},
+			{Name: "rule z", SampleRate: 2, Conditions: []*config.RulesBasedSamplerCondition{{Field: "f1", Operator: config.EQ, Value: "z"}}},
+			{Name: "rest", SampleRate: 1},
+		}}, "RulesBasedSampler"
 	}
 	return &config.DeterministicSamplerConfig{SampleRate: 1}, "DeterministicSampler"
 }
@@ -730,7 +738,7 @@ func (w *worldA) onDecision(a map[string]attribute.Value) {
 	}
 	d := &decisionRec{step: w.out.Steps, stepK: w.drv.CurKind, stepIdent: w.drv.CurIdent, at: time.Now(), traceID: id,
 		kept: a["kept"].AsBool(), rate: uint(a["rate"].AsInt64()), reason: a["reason"].AsString(),
-		sendReason: a["send_reason"].AsString(), hasRoot: a["hasRoot"].AsBool(), spans: tm.liveSpans, cfgEpoch: len(w.epochs) - 1,
+		sendReason: a["send_reason"].AsString(), hasRoot: !tm.rootAt.IsZero(), spans: tm.liveSpans, cfgEpoch: len(w.epochs) - 1,
 		deadline: tm.deadline, first: tm.first, overLimit: !tm.limitAt.IsZero(), worker: tm.worker}
 	if v, ok := a["rate"]; ok && v.Type() == attribute.STRING {
 		// rate is a uint: otelutil formats unknown types with %v
